@@ -19,11 +19,10 @@ What is proved here (for the model of `tokenizer/mod.rs`; all inputs, states, ma
   stream is dropped.
 * `C08_exact_reader`: with `exact_errors` every read goes through `get_char`.
 
-`C08_exact_errors_partial`: the full statement "the token streams with and without `exact_errors`
-are equal after dropping parse errors, for every input" is **not** proved as one theorem yet; it is
-decided on the real code by the option-flipping oracle of this check (code vs code, every cover
-input under all option combinations) and carried for the model by the correspondence under both
-settings.
+The whole-run statement is proved in `Props/C08Run.lean`: **`C08_exact_errors_tokens`** — for any two
+option values, any machine, any chunking and any sink policy that does not look at parse errors, the
+sessions deliver the same `(token, line)` sequence after erasing parse errors, and so does
+`Tokenizer::end` (simulation `E`: equal up to parse errors and a `current_char` nobody will read).
 -/
 namespace H5V.Props.C08
 open H5V H5V.Model.HtmlTok
